@@ -242,18 +242,33 @@ func nqDecodeImpl(data []byte, o nqDecodeOpts) (res nqDecoded) {
 	}
 	var d dec
 	var err error
+	optSplit := len(data) // options given as one value or as several, in either order, compose
 	if o.nq {
-		cfg := nquads.DecoderConfig{}
+		opts := []nquads.DecoderOption{}
 		if o.offsets {
-			cfg = cfg.SetCaptureTextOffsets(true).SetInitialTextOffset(o.init)
+			switch optSplit % 3 {
+			case 0:
+				opts = append(opts, nquads.DecoderConfig{}.SetCaptureTextOffsets(true).SetInitialTextOffset(o.init))
+			case 1:
+				opts = append(opts, nquads.DecoderConfig{}.SetInitialTextOffset(o.init), nquads.DecoderConfig{}.SetCaptureTextOffsets(true))
+			default:
+				opts = append(opts, nquads.DecoderConfig{}.SetCaptureTextOffsets(true), nquads.DecoderConfig{}.SetInitialTextOffset(o.init))
+			}
 		}
-		d, err = nquads.NewDecoder(rd, cfg)
+		d, err = nquads.NewDecoder(rd, opts...)
 	} else {
-		cfg := ntriples.DecoderConfig{}
+		opts := []ntriples.DecoderOption{}
 		if o.offsets {
-			cfg = cfg.SetCaptureTextOffsets(true).SetInitialTextOffset(o.init)
+			switch optSplit % 3 {
+			case 0:
+				opts = append(opts, ntriples.DecoderConfig{}.SetCaptureTextOffsets(true).SetInitialTextOffset(o.init))
+			case 1:
+				opts = append(opts, ntriples.DecoderConfig{}.SetInitialTextOffset(o.init), ntriples.DecoderConfig{}.SetCaptureTextOffsets(true))
+			default:
+				opts = append(opts, ntriples.DecoderConfig{}.SetCaptureTextOffsets(true), ntriples.DecoderConfig{}.SetInitialTextOffset(o.init))
+			}
 		}
-		d, err = ntriples.NewDecoder(rd, cfg)
+		d, err = ntriples.NewDecoder(rd, opts...)
 	}
 	if err != nil {
 		res.verdict = "new:" + err.Error()
